@@ -441,7 +441,7 @@ class Sim:
         bufsize: int = 8192,
         max_io: int = 1 << 30,
         step_cap: int = 20000,
-        watchdog_s: float = 120.0,
+        watchdog_s: float = 900.0,
         shuffle_listing: bool = True,
     ) -> None:
         self.sandbox = sandbox
